@@ -54,6 +54,7 @@ class BuiltinMixin:
     def seq_fold(self, step_seq, elem_kind, idx, n):
         srt = z3.SeqSort(self.ctx.sorts.sort_of(elem_kind))
         decl, args = self.ctx.folds.make('concat', step_seq, idx, z3.Empty(srt), z3.Concat, srt)
+        self.fold_provenance(decl)
         return decl(*(args + [n]))
 
     def num_fold(self, kind, step, idx, n):
@@ -900,6 +901,23 @@ class BuiltinMixin:
                 if not parts:
                     return VStrConst('')
                 return VStr(z3.Concat(*parts) if len(parts) > 1 else parts[0])
+            if isinstance(v, (VSeq, VHeapList)):
+                # sep.join(xs) for xs built one string per index (a concatenation fold with one-element pieces): the string
+                # fold whose i-th piece is the element, preceded by the separator except for i == 0
+                t, ek = self.to_seq(v, path)
+                t = ssimp(t)
+                if ek == STR and z3.is_app(t) and ctx.folds.is_fold(t.decl()):
+                    info = ctx.folds.info(t.decl())
+                    _, _, kind, params, norm, _, _ = info
+                    if kind == 'concat' and z3.is_app(norm) and norm.decl().name() == 'seq.unit':
+                        I = z3.Int('I!')
+                        fargs = [t.arg(k) for k in range(t.num_args() - 1)]
+                        n = t.arg(t.num_args() - 1)
+                        idx = ctx.fresh('j', z3.IntSort())
+                        elem = z3.substitute(norm.arg(0), *([(p, a) for p, a in zip(params, fargs)] + [(I, idx)]))
+                        step = z3.If(idx == 0, elem, z3.Concat(s.t, elem))
+                        decl, sargs = ctx.folds.make('concat', ssimp(step), idx, z3.StringVal(''), z3.Concat, z3.StringSort())
+                        return VStr(decl(*(sargs + [n])))
             raise OutOfReach('join over a symbolic sequence')
         if name == 'find':
             return VInt(z3.IndexOf(s.t, self.coerce(args[0], STR).t, 0))
